@@ -55,6 +55,7 @@ type shandle struct {
 
 type sexec struct {
 	dir       string
+	foreign0  bool // handle 0 uses the other hash id
 	cfg       reftable.Config
 	handles   []*shandle
 	cur       *shandle
@@ -224,8 +225,16 @@ func (e *sexec) runHandle(h *shandle) {
 		h.aborting = true
 	}
 	e.cur = h
+	hcfg := e.cfg
+	if e.foreign0 && h.id == 0 {
+		if hcfg.HashID == reftable.SHA256ID {
+			hcfg.HashID = reftable.SHA1ID
+		} else {
+			hcfg.HashID = reftable.SHA256ID
+		}
+	}
 	hs := 20
-	if e.cfg.HashID == reftable.SHA256ID {
+	if hcfg.HashID == reftable.SHA256ID {
 		hs = 32
 	}
 	for _, op := range h.script {
@@ -251,7 +260,7 @@ func (e *sexec) runHandle(h *shandle) {
 			}()
 			switch op.kind {
 			case "open":
-				st, err := reftable.NewStack(e.dir, e.cfg)
+				st, err := reftable.NewStack(e.dir, hcfg)
 				if err != nil {
 					res = "err"
 				} else {
